@@ -20,7 +20,8 @@ def place_hostile(rnd, g):
         args = [('A', h)] + [rnd.choice([('A', 'x'), ('V', 'X'), ('A', h)]) for _ in range(rnd.randint(0, 2))]
         if rnd.random() < 0.15:
             args = []
-        goal = ('call', '$CUTIF', args)
+        name = '$CUTIF' if rnd.random() < 0.5 else S.escaped_spelling('$CUTIF', rnd, 0.3)
+        goal = ('call', name, args)
         body = rnd.choice([goal, ('conj', ('call', 'q', []), goal), ('disj', ('ite', ('call', 'q', []), goal), 'tru'), ('neg', goal)])
         return ('p', [], body, True), pos, h
     if pos == 'fact-arg':
